@@ -222,6 +222,10 @@ fn error_cases(tables: &Tables) -> Vec<Failure> {
         ("join column missing on the joined side", format!("SELECT * FROM t INNER JOIN u::'{}' ON t.k = u.nosuch", tmp.paths[0])),
         ("unknown joined table", format!("SELECT * FROM t INNER JOIN nosuch::'{}' ON t.k = nosuch.k", tmp.paths[0])),
         ("joined file missing (aggregate)", "SELECT COUNT(*) FROM t OUTER JOIN u::'/dev/shm/vcheck/does-not-exist' ON t.k = u.k".to_string()),
+        ("joined file missing + LIMIT 0", "SELECT * FROM t INNER JOIN u::'/dev/shm/vcheck/does-not-exist' ON t.k = u.k LIMIT 0".to_string()),
+        ("joined file missing + LIMIT 1", "SELECT * FROM t INNER JOIN u::'/dev/shm/vcheck/does-not-exist' ON t.k = u.k LIMIT 1".to_string()),
+        ("join column missing on the joined side + LIMIT 0", format!("SELECT * FROM t OUTER JOIN u::'{}' ON t.k = u.nosuch LIMIT 0", tmp.paths[0])),
+        ("join column missing on the queried side + DISTINCT + WHERE", format!("SELECT DISTINCT y FROM t INNER JOIN u::'{}' ON t.nosuch = u.k WHERE y > 0", tmp.paths[0])),
         ("join column missing on the queried side (aggregate)", format!("SELECT COUNT(*) FROM t INNER JOIN u::'{}' ON t.nosuch = u.k", tmp.paths[0])),
     ];
     for (what, text) in cases {
@@ -230,6 +234,11 @@ fn error_cases(tables: &Tables) -> Vec<Failure> {
             Err(_) => continue, // rejected at parse time: an error report
         };
         let got = sut::run_batch(tables, &st, &main);
+        let fr = sut::run_files(tables, &st, &[b"{\"k\":\"a\",\"x\":1,\"m\":\"m\"}\n"], sut::FileRunOpts::default());
+        let file_ok = matches!(&fr, Outcome::Ok(r) if r.result.is_err());
+        if !file_ok {
+            out.push(fail(format!("join:error-case:{}:file-executor", what), format!("{}: `{}` through FileExecutor must report an error", what, text), json!({"layer": "errors", "what": what}), json!("error"), sut::outcome_json(&fr, |t| t.to_json()), 0));
+        }
         if !matches!(got, Outcome::Err(_)) {
             out.push(fail(format!("join:error-case:{}", what), format!("{}: `{}` must report an error, got {}", what, text, got.kind()), json!({"layer": "errors", "what": what}), json!("error"), sut::outcome_json(&got, |t| t.to_json()), 0));
         }
